@@ -14,7 +14,7 @@ from pbt.common import Violation, run_hypothesis
 from pbt.props import c06
 
 ID = 'C07'
-RULE = ('Hypothesis: class-expression trees (<= 6 leaves) over |, -, ~ with constructor leaves as in C06 (valid arguments), '
+RULE = ('Hypothesis: class-expression trees (<= 6 leaves) over |, -, ~ with constructor leaves as in C06 (valid arguments; also AnyFrom with 8-100 members of realistic alphabets), '
         'named classes, Any, AnyWordChar(is_global), str/token operands on either side, mixed polarities, and range end-points '
         'drawn near each other so that ranges overlap / touch / nest. Result membership is decided over all 1,114,112 code points. '
         'Non-trivial = >= 2 operators and some pair of operand sets overlaps or is adjacent. Distinct = distinct serialised expression.')
@@ -51,17 +51,22 @@ def leaf_set(e, negated):
 
 
 # -- strategies -----------------------------------------------------------------------------------
-BASES = list('\\]^[-/$.()|?*+{}azAZ09_ ~!') + ['\x00', '\x7f', 'é', 'é', 'Ā', '٣', 'Ω', 'א', '한', '\uffff', '\U0001F600', '\U0010fff0']
+BASES = list('\\]^[-/$.()|?*+{}azAZ09_ ~!') + ['\x00', '\x7f', 'é', 'é', 'Ā', '٣', 'Ω', 'א', '한', '\ud7ff', '\ue000', '\uffff', '\U00010000', '\U0001F600', '\U0010fff0', '\U0010ffff', '\U0010ffff']
 
 
 def near_range(bases=BASES):
     """Ranges whose end-points are drawn close to a small set of bases, so that they overlap / touch / nest."""
     def mk(t):
-        base, off, ln = t
+        base, off, ln, anchored = t
+        if anchored:      # end-point exactly at the base (ranges that end at U+10FFFF / start at U+0000 / touch a block edge)
+            hi = ord(base) if ord(base) > 0 else ln
+            lo = max(0, hi - ln)
+            return (chr(lo), chr(hi))
         lo = max(0, min(0x10FFFE, ord(base) + off))
         hi = min(0x10FFFF, lo + ln)
         return (chr(lo), chr(hi))
-    return st.tuples(st.sampled_from(bases), st.integers(-4, 4), st.integers(1, 12)).map(mk)
+    return st.tuples(st.sampled_from(bases), st.integers(-4, 4), st.one_of(st.integers(1, 12), st.integers(1, 12), st.integers(13, 3000)),
+                     st.sampled_from([False, False, True])).map(mk)
 
 
 def near_char(bases=BASES):
@@ -77,7 +82,12 @@ def leaf_strategy(invalid=False, bases=BASES):
                              'AnyButUppercaseLetter', 'AnyDigit', 'AnyButDigit', 'AnyPunctuation', 'AnyButPunctuation',
                              'AnyWhitespace', 'AnyButWhitespace', 'AnyGermanLetter', 'AnyButGermanLetter', 'AnyGreekLetter',
                              'AnyHebrewLetter', 'AnyKoreanLetter', 'AnyCyrillicLetter', 'AnyCJK', 'AnyButCJK'])
+    import string
+    pools = [string.punctuation, string.printable, string.ascii_letters + string.digits + '-._', ''.join(chr(c) for c in range(0x20, 0x7f)),
+             ''.join(chr(c) for c in range(0xA0, 0x180)), string.ascii_letters[::2] + string.digits[::2] + string.punctuation[::2]]
+    big = st.tuples(st.sampled_from(pools), st.integers(0, 2 ** 30), st.integers(8, 100), st.booleans()).map(c06._big_args)
     opts = [
+        big.map(lambda xs: ['from', xs]), big.map(lambda xs: ['butfrom', xs]),
         frm.map(lambda xs: ['from', xs]), frm.map(lambda xs: ['from', xs]), frm.map(lambda xs: ['butfrom', xs]),
         rng.map(lambda p: ['between', ['c', p[0]], ['c', p[1]]]), rng.map(lambda p: ['between', ['c', p[0]], ['c', p[1]]]),
         rng.map(lambda p: ['butbetween', ['c', p[0]], ['c', p[1]]]),
@@ -93,7 +103,8 @@ def expr_strategy(max_leaves=6, invalid=False):
     """Half of the expressions draw all their ranges/characters around ONE base code point (so that operands overlap,
     touch and nest, also above U+007F); the other half mix bases."""
     clustered = st.sampled_from(BASES).flatmap(lambda b: _expr_strategy(max_leaves, invalid, [b]))
-    return st.one_of(clustered, _expr_strategy(max_leaves, invalid, BASES))
+    edges = st.sampled_from(['\x00', '\x7f', '\uffff', '\U0010ffff', '\U0010ffff']).flatmap(lambda b: _expr_strategy(max_leaves, invalid, [b]))
+    return st.one_of(clustered, clustered, _expr_strategy(max_leaves, invalid, BASES), _expr_strategy(max_leaves, invalid, BASES), edges)
 
 
 def _expr_strategy(max_leaves, invalid, bases):
